@@ -103,6 +103,25 @@
 #define CAT_VERIF_GHOST_get_new_line_chars __CPROVER_assume(crlf == g_crlf);
 #endif
 
+/* formatters: F_* abbreviate the cursor / half of the machine the call works for */
+#define F_POS        (fsm == CAT_FSM_TYPE_ATCMD ? self->position : self->unsolicited_fsm.position)
+#define F_POS0       (fsm == CAT_FSM_TYPE_ATCMD ? __CPROVER_loop_entry(self->position) : __CPROVER_loop_entry(self->unsolicited_fsm.position))
+#define F_CAP        (fsm == CAT_FSM_TYPE_ATCMD ? CAP_AT(self) : CAP_UN(self))
+#define F_BUF        (fsm == CAT_FSM_TYPE_ATCMD ? ABUF(self) : UBUF(self))
+#define F_ASSIGNS    FMT_ASSIGNS
+#define CAT_VERIF_LOOP_format_buffer_hexadecimal \
+        __CPROVER_assigns(i, val; F_ASSIGNS) \
+        __CPROVER_loop_invariant(i <= var->data_size && F_POS == F_POS0 + 2 * i && F_POS <= F_CAP) \
+        __CPROVER_loop_invariant(i > 0 ==> (F_POS < F_CAP && F_BUF[F_POS] == 0)) \
+        __CPROVER_loop_invariant((g_j < i) ==> (F_BUF[F_POS0 + 2 * g_j] == HEXCH(VBYTE(var, g_j) >> 4) && F_BUF[F_POS0 + 2 * g_j + 1] == HEXCH(VBYTE(var, g_j) & 15))) \
+        __CPROVER_loop_invariant((g_k < F_POS0) ==> F_BUF[g_k] == g_oldtext) \
+        __CPROVER_decreases(var->data_size - i)
+#define CAT_VERIF_LOOP_format_buffer_string \
+        __CPROVER_assigns(i, ch; F_ASSIGNS) \
+        __CPROVER_loop_invariant(i <= buf_size && F_POS0 >= 1 && F_POS >= F_POS0 && F_POS < F_CAP && F_BUF[F_POS] == 0 && F_BUF[F_POS0 - 1] == '"') \
+        __CPROVER_loop_invariant((g_k + 1 < F_POS0) ==> F_BUF[g_k] == g_oldtext) \
+        __CPROVER_decreases(buf_size - i)
+
 /* placeholders (filled in below as each loop is brought under contract) */
 #define CAT_VERIF_LOOP_is_variables_access_possible
 #define CAT_VERIF_LOOP_cat_is_unsolicited_event_buffered
@@ -110,8 +129,6 @@
 #define CAT_VERIF_LOOP_cat_init_groups
 #define CAT_VERIF_LOOP_cat_init_cmds
 #define CAT_VERIF_LOOP_is_command_disable
-#define CAT_VERIF_LOOP_format_buffer_hexadecimal
-#define CAT_VERIF_LOOP_format_buffer_string
 #define CAT_VERIF_LOOP_cat_search_command_by_name
 #define CAT_VERIF_LOOP_cat_search_command_group_by_name
 #define CAT_VERIF_LOOP_cat_search_variable_by_name
